@@ -26,7 +26,7 @@ def fs(*a):
 
 def failed(st, fn, n, what=None):
     """mark the first failing library call on this path (used by the all-or-nothing rules)"""
-    if "failed" in st.mon:
+    if "failed" in st.mon or "nofail" in st.mon:
         return st
     s = st.copy()
     s.mon["failed"] = "%s@%s:%d" % (what or n.get("callee"), fn.name, n["l"][0])
@@ -113,7 +113,7 @@ def m_close(I, fn, n, args, st):
                 s.res[a] = ("closed",) + tuple(cur[1:])
             if len(args[0]) > 1:
                 ev(I, "close-ambiguous", fn, n, args[0], st)
-        elif isinstance(a, tuple) and a[0] == "ext":
+        elif isinstance(a, tuple) and a[0] in ("ext", "uh"):
             ev(I, "close-foreign", fn, n, a, st)
         else:
             ev(I, "close-raw", fn, n, a, st)
@@ -149,7 +149,8 @@ def m_waitpid(I, fn, n, args, st):
         if isinstance(a, tuple) and a[0] == "pid" and s_gone.res.get(a) == ("running",):
             s_gone.res[a] = ("gone",)       # ECHILD: somebody else reaped it; nothing is left behind
     s_int = st.copy()
-    s_int.mon["eintr"] = "%s@%s:%d" % (n.get("callee"), fn.name, n["l"][0])
+    if "nofail" not in st.mon:
+        s_int.mon["eintr"] = "%s@%s:%d" % (n.get("callee"), fn.name, n["l"][0])
     s_gone.mon.pop("eintr", None)
     s_ok.mon.pop("eintr", None)
     return [(with_errno(s_int, fs(EINTR)), fs(-1)), (with_errno(failed(s_gone, fn, n), other), fs(-1)), (s_ok, args[0])]
@@ -164,6 +165,8 @@ EINTR = 4
 
 
 def interrupted(st, fn, n):
+    if "nofail" in st.mon:
+        return st
     s = st.copy()
     s.mon["eintr"] = "%s@%s:%d" % (n.get("callee"), fn.name, n["l"][0])
     s.mon["lastread"] = "eintr"
@@ -171,6 +174,8 @@ def interrupted(st, fn, n):
 
 
 def not_interrupted(st, how=None):
+    if "nofail" in st.mon:
+        return st
     s = st.copy()
     s.mon.pop("eintr", None)
     if how:
